@@ -213,7 +213,9 @@ def sequence_leg(n_variants, kind, chunked):
                         else:
                             obj = CDSInterval([b[0] for b in bl], [b[1] for b in bl], strand, [CDSFrame.ZERO, CDSFrame.ZERO], guid=90,
                                               parent_or_seq_chunk_parent=par())
-                            got = str(obj.incorporate_variants(hap).chunk_relative_location.extract_sequence())
+                            new = obj.incorporate_variants(hap)
+                            got = str(new.chunk_relative_location.extract_sequence())
+                            got_inframe = str(new.extract_sequence())
                     except EmptyLocationException:
                         got = ""
                     pieces = []
@@ -226,6 +228,10 @@ def sequence_leg(n_variants, kind, chunked):
                         exp = "".join(comp[c] for c in reversed(exp))
                     if got != exp:
                         return False
+                    if kind == "cds" and got and len(exp) >= 3:
+                        # frames are regenerated from the start frame: the coding sequence is the edited spliced sequence in ONE frame
+                        if got_inframe != exp[: len(exp) // 3 * 3]:
+                            return False
             return True
 
     return fn
